@@ -153,6 +153,33 @@ def rule_mapping(ctx: Ctx):
         break
     if not seen:
         rep.violation("C10.access", fn.loc(), "add_state does not fill states_map", fn.key, "no states_map[...] store")
+    # states_map is the set of valid model contents: every key put into it, anywhere, is the `value` of the state it maps to
+    n_w = 0
+    for f in ctx.p.all_functions():
+        if isinstance(f.node, ast.Lambda):
+            continue
+        for node in own_nodes(f.node):
+            key = val = None
+            if isinstance(node, ast.Subscript) and isinstance(node.ctx, ast.Store) and isinstance(node.value, ast.Attribute) and node.value.attr == "states_map":
+                key = node.slice
+                par = next((a for a in own_nodes(f.node) if isinstance(a, ast.Assign) and any(t is node for t in a.targets)), None)
+                val = par.value if par is not None else None
+            elif isinstance(node, ast.Call) and isinstance(node.func, ast.Attribute) and isinstance(node.func.value, ast.Attribute) \
+                    and node.func.value.attr == "states_map" and node.func.attr in ("setdefault", "update", "__setitem__", "pop", "clear", "popitem"):
+                if node.func.attr in ("setdefault", "__setitem__") and len(node.args) == 2:
+                    key, val = node.args
+                else:
+                    n_w += 1
+                    rep.violation("C10.access", f.loc(node), f"states_map is changed with `.{node.func.attr}(...)`: its keys are exactly the declared "
+                                  "states' values", f.key, norm_stmt(node))
+                    continue
+            if key is None:
+                continue
+            n_w += 1
+            ok = isinstance(key, ast.Attribute) and key.attr == "value" and val is not None and show(key.value) == show(val)
+            rep.check(ok, "C10.access", f.loc(node), "every key of states_map is the `value` of the state it maps to (nothing else is a valid "
+                      "model content: an id, a name or an alias stored there would be accepted and resolved)", f.key, norm_stmt(node))
+    rep.floor("C10.access", "writes of states_map in the package", n_w, 1)
     sid = ctx.fn("State._set_id")
     for p in ctx.paths(sid, inline=None, exc_edges="none"):
         facts = {xshow(b.term, p.events): b.x["taken"] for b in p.of("branch")}
